@@ -241,12 +241,54 @@ def stepFloatTable (tbl : List (Nat × FInst F)) (factor : Rat) (typeTag : Strin
 
 end generic
 
+/-! ### machine integers: `Mean<i64, N>` (truncating division) -/
+
+def stepI64Op (d : DState) (op : String) (toks impl : List String) : Option (DState × List String) :=
+  let implS := " ".intercalate impl
+  let get (id : Nat) : Option (FInst I64) := (d.i64s.find? (·.1 == id)).map (·.2)
+  let put (d : DState) (id : Nat) (i : FInst I64) : DState := { d with i64s := (id, i) :: d.i64s.filter (·.1 != id) }
+  let rl (l : List I64) : String := if l.isEmpty then "-" else " ".intercalate (l.map I64.render)
+  match toks with
+  | "new" :: id :: "mean" :: rest =>
+    let kv := parseKV rest
+    if kv.get "T" != some "i64" then none else do
+    let n ← kv.nat "N"
+    some (report ((put d (← id.toNat?) { st := (Cfg.mean n : Cfg I64).init }).flag "i64") op { model := "ok", impl := implS, kind := "mean-i64" })
+  | ["f", id, v] => do
+    let id ← id.toNat?
+    let inst ← get id
+    let x ← I64.parse v
+    let hist := inst.hist ++ [[x]]
+    match inst.st.filter [x] with
+    | none => some (report d op { model := "PANIC", impl := implS, kind := "mean-i64" })
+    | some (st', y) =>
+      let clauses := match inst.st with
+        | .mean N _ => if N == 0 then [] else
+          let e := (Spec.windowMean N (hist.filterMap List.head?)).render
+          [{ name := "C03.window-mean", ok := e == implS, expected := e : Clause }]
+        | _ => []
+      let d := d.flag (match inst.st with | .mean N _ => if hist.length > N then "slid" else "warmup" | _ => "multi")
+      some (report (put d id { inst with st := st', hist := hist }) op
+        { model := rl y, impl := implS, kind := "mean-i64", clauses := clauses })
+  | ["guts", id, field] => do
+    let inst ← get (← id.toNat?)
+    match inst.st, field with
+    | .mean _ s, "mean" => some (report d op { model := (match s.mean with | none => "none" | some m => m.render), impl := implS, kind := "mean-i64" })
+    | .mean _ s, "taps" => some (report d op { model := rl s.taps, impl := implS, kind := "mean-i64" })
+    | .mean _ s, "weight" => some (report d op { model := s.weight.render, impl := implS, kind := "mean-i64" })
+    | _, _ => none
+  | ["reset", id] => do
+    let id ← id.toNat?
+    let inst ← get id
+    some (report ((put d id { inst with st := inst.st.reset, hist := [] }).flag "reset") op { model := "ok", impl := implS, kind := "mean-i64" })
+  | _ => none
+
 def stepFloatOp (d : DState) (op : String) (toks impl : List String) : Option (DState × List String) :=
   match stepFloatTable d.f64s Gen.hampelFactor_f64 "f64" d op toks impl with
   | some (tbl, d', out) => some ({ d' with f64s := tbl }, out)
   | none =>
     match stepFloatTable d.f32s Gen.hampelFactor_f32 "f32" d op toks impl with
     | some (tbl, d', out) => some ({ d' with f32s := tbl }, out)
-    | none => none
+    | none => stepI64Op d op toks impl
 
 end SignaloModel.Driver
